@@ -66,6 +66,8 @@ FLAVOURS = {
     # C16: no sanitizer (they change frame layout); eager binding so that the dynamic loader never dumps registers on the monitored stack
     'opt-O0':   {'cc': 'gcc', 'cflags': '-O0 -g -DNDEBUG', 'ldextra': '-Wl,-z,now'},
     'opt-O1':   {'cc': 'gcc', 'cflags': '-O1 -g -DNDEBUG', 'ldextra': '-Wl,-z,now'},
+    'opt-O0-dbg': {'cc': 'gcc', 'cflags': '-O0 -g', 'ldextra': '-Wl,-z,now'},       # assertion-enabled builds (plain `cc src/*.c`, CMake Debug): code under #ifndef NDEBUG and
+    'opt-O2-dbg': {'cc': 'gcc', 'cflags': '-O2 -g', 'ldextra': '-Wl,-z,now'},       # the operands of assert() are temporaries of the library too
     'opt-O2':   {'cc': 'gcc', 'cflags': '-O2 -g -DNDEBUG', 'ldextra': '-Wl,-z,now'},
     'opt-cmake': {'cc': 'gcc', 'cflags': '-O2 -g -DNDEBUG', 'ldextra': '-Wl,-z,now', 'cmake': True},     # the residue scan on the library as the project's own build makes it
     'opt-O3':   {'cc': 'gcc', 'cflags': '-O3 -g -DNDEBUG', 'ldextra': '-Wl,-z,now'},
@@ -119,7 +121,7 @@ PROPS['C03'] = {
     'require': {'concurrent.phrases_equal_specification': 30000, 'encode.calls': 400000, 'bits.seeds': 13531, 'purity.histories_agree': 1000, 'reserved_bit.decodes': 100, 'oracle.vectors_reproduced': 3000, 'lengths.encoded': 1500, 'pyvec.phrases_equal_to_python_spec': 3000, 'lengths.ko.decile8': 3, 'lengths.ko.decile6': 5, 'lengths.jp.decile2': 5},
 }
 
-_C16_FL = ['opt-O0', 'opt-O1', 'opt-O2', 'opt-O3', 'opt-Os', 'clang-O2', 'opt-cmake']
+_C16_FL = ['opt-O0', 'opt-O1', 'opt-O2', 'opt-O3', 'opt-Os', 'clang-O2', 'opt-cmake', 'opt-O0-dbg', 'opt-O2-dbg']
 PROPS['C16'] = {
     'level': 'exploration',
     'runs': [{'name': fl, 'flavour': fl, 'driver': 'drv_c16', 'shards': 3} for fl in _C16_FL],
@@ -263,8 +265,9 @@ PROPS['C11'] = {
     'level': 'exploration',
     'exhaustive_possible': True,
     'runs': [{'name': 'plain-wrap', 'flavour': 'plain-wrap', 'driver': 'drv_c11', 'timeout': 1800},
-             {'name': 'asan-wrap', 'flavour': 'asan-wrap', 'driver': 'drv_c11', 'env': {'PV_SCALE': '10'}, 'shards': 6}],
-    'require': {'concurrent.birthdays_equal_model': 20000, 'creates.boundary.injected': 4100, 'creates.boundary.libc': 4100, 'creates.special.libc': 20, 'creates.random-in-range.injected': 50000,
+             {'name': 'asan-wrap', 'flavour': 'asan-wrap', 'driver': 'drv_c11', 'env': {'PV_SCALE': '10'}, 'shards': 6},
+             {'name': 'static-host', 'kind': 'statichost', 'flavour': 'static-host', 'driver': 'static_host'}],
+    'require': {'statichost.checks': 150, 'concurrent.birthdays_equal_model': 20000, 'creates.boundary.injected': 4100, 'creates.boundary.libc': 4100, 'creates.special.libc': 20, 'creates.random-in-range.injected': 50000,
                 'creates.random-64bit.libc': 10000, 'persist.phrase_ok': 10000, 'persist.crypt_ok': 1024},
     'require_tier': {'thorough': {'creates.sweep.injected': 40000000}},
 }
@@ -326,7 +329,10 @@ PROPS['C15'] = {
     'level': 'fault_enumeration',
     'exhaustive_possible': True,
     'runs': [{'name': 'asan-wrap', 'flavour': 'asan-wrap', 'driver': 'drv_c15', 'env': {'ASAN_OPTIONS': _LSAN}},
-             {'name': 'msan-wrap', 'flavour': 'msan-wrap', 'driver': 'drv_c15', 'env': {'PV_SCALE': '50', 'PV_NO_STATIC_MONITOR': '1'}, 'shards': 4}],
+             {'name': 'msan-wrap', 'flavour': 'msan-wrap', 'driver': 'drv_c15', 'env': {'PV_SCALE': '50', 'PV_NO_STATIC_MONITOR': '1'}, 'shards': 4},
+             # the assertion-enabled build of the library (what a plain `cc src/*.c` or a CMake Debug build gives): an assertion that looks at a block
+             # before the library has filled it turns "junk memory" into an abort with the block still owned by the library
+             {'name': 'asan-dbg-wrap', 'flavour': 'asan-dbg-wrap', 'driver': 'drv_c15', 'env': {'ASAN_OPTIONS': _LSAN, 'PV_SCALE': '30'}, 'shards': 6}],
     'require': {'libc.refused_allocation_reported_as_MEMORY': 100, 'firstuse.children_ok': 25, 'matrix.cases_ok': 500, 'matrix.cases_with_stale_out_pointer_and_address_reuse': 500, 'matrix.cases_with_8_byte_aligned_blocks': 500, 'faults.injected': 500, 'masks.enumerated': 2000, 'libc.seed_freed_once': 500, 'free_null.silent': 500,
                 
                 'matrix.cell.decode.CHECKSUM.fault-1(not reached)': 10, 'matrix.cell.decode.MULT_LANG.fault-1(not reached)': 5, },
@@ -341,8 +347,10 @@ PROPS['C18'] = {
              {'name': 'asan-dbg-wrap', 'flavour': 'asan-dbg-wrap', 'driver': 'drv_c18', 'env': {'PV_SCALE': '10'}, 'shards': 4},
              {'name': 'uchar-wrap', 'flavour': 'uchar-wrap', 'driver': 'drv_c18', 'env': {'PV_SCALE': '10'}, 'shards': 4},
              # the shared object as shipped, inside a host program that defines (read-only / aborting) symbols with the names of all internal globals of the library
-             {'name': 'shared-hostile-host', 'flavour': 'shared', 'driver': 'drv_c03', 'env': {'PV_SCALE': '5'}, 'shards': 2}],
-    'require': {'inject.birthday_from_libc_clock': 300, 'rand.creates_ok': 50000, 'rand.single_bit_patterns_ok': 152, 'rand.creates_with_repeated_random_output': 5000, 'rand.creates_with_out_of_range_clock': 3000, 'inject.histories_ok': 1500, 'inject.struct_unmapped_afterwards': 500,
+             {'name': 'shared-hostile-host', 'flavour': 'shared', 'driver': 'drv_c03', 'env': {'PV_SCALE': '5'}, 'shards': 2},
+             # a statically linked application that never mentions time/malloc/free itself (archive members are pulled only by strong references)
+             {'name': 'static-host', 'kind': 'statichost', 'flavour': 'static-host', 'driver': 'static_host'}],
+    'require': {'statichost.checks': 150, 'inject.birthday_from_libc_clock': 300, 'rand.creates_ok': 50000, 'rand.single_bit_patterns_ok': 152, 'rand.creates_with_repeated_random_output': 5000, 'rand.creates_with_out_of_range_clock': 3000, 'inject.histories_ok': 1500, 'inject.struct_unmapped_afterwards': 500,
                 'inject.libc_fallback_observed.alloc/malloc': 300, 'inject.libc_fallback_observed.free': 300, 'inject.libc_fallback_observed.time': 300,
                 'inject.last_table.time0.alloc0.free0': 100, 'inject.last_table.time1.alloc1.free1': 100, 'inject.old_seed_freed_after_reinjection': 50},
 }
@@ -447,8 +455,18 @@ for _p in ('C01', 'C02', 'C03', 'C04', 'C05', 'C06', 'C07', 'C08', 'C09', 'C10',
 # fourteenth wave: what was added (appended to the manifest texts), and the minima that go with it
 _W14 = {
  'C01': ' The seed that is handed to encode is itself observed through every observer and must equal the abstract value its phrase carries (a seed with stray bits a phrase cannot carry would otherwise come back "different" unnoticed).',
+ 'C02': ' A sample of every section\'s altered phrases also goes through language auto-detection, half of them with the allocator refusing a request: the status must be the model\'s (a refused request may turn OK/UNSUPPORTED into MEMORY, nothing else).',
+ 'C03': ' Seeds are obtained by rotating paths (created, loaded, restored from a phrase, encrypted and decrypted, stored encrypted and decrypted after loading).',
+ 'C05': ' Seeds are obtained by rotating paths (created, loaded, restored from a phrase, encrypted and decrypted, stored encrypted and decrypted after loading).',
+ 'C11': ' A statically linked host that never mentions time/malloc/free itself (gcc and clang) checks the libc-clock birthday against the kernel clock read by a raw system call.',
+ 'C13': ' Every observation of a seed also queries the feature getter with bits above the three user bits set in the mask argument.',
+ 'C15': ' The matrix also runs on the assertion-enabled build of the library (an assertion that inspects a block before it is filled turns junk memory into an abort).',
+ 'C16': ' Two assertion-enabled builds (-O0, -O2 without NDEBUG) are scanned as well.',
+ 'C17': ' Witness seeds are obtained by rotating paths (created, loaded, restored from a phrase, encrypted and decrypted).',
+ 'C18': ' A statically linked host that never mentions time/malloc/free itself (gcc -O2/-Os, clang) runs create/encode/decode/load under NULL optional entries, own entries, and NULL entries again: libc clock (compared with the kernel clock read by a raw system call) and allocator must be reached although nothing else in the program pulls them from the archive.',
  'C06': ' Seeds reached by other paths than load/create (restored from a phrase, encrypted and decrypted again, stored encrypted then loaded and decrypted, encrypted once) must store to the canonical image of their abstract value and load again.',
 }
 for _p, _t in _W14.items():
     MANIFEST_TEXT[_p]['text'] = MANIFEST_TEXT[_p]['text'].rstrip() + _t
+PROPS['C02'].setdefault('require', {}).update({'auto.status_equals_model': 100000, 'auto.with_failing_allocator': 50000})
 PROPS['C06'].setdefault('require', {}).update({'roundtrip.path.crypt-twice': 3000, 'roundtrip.path.decoded': 3000, 'roundtrip.path.decrypted-copy': 3000, 'roundtrip.path.encrypted-once': 3000})
